@@ -88,6 +88,62 @@ CHECKS = {
             'evaluated at 0..N-1.',
             'Exact padding reference when pad_width < #extrema, structural invariants when it is clipped.',
             'DESIGN.md section 3 / C05'),
+    'C06': ('I+S', 'bounded-exhaustive configuration enumeration + exhaustive schedule exploration; call-tree and output oracles',
+            'Six variants x 19 option sets (one-at-a-time and combined deviations) x three delivery routes x signals with the '
+            'serial pool, and every chunk->worker assignment (P=2) for the pooled variants under the controlled fork pool. '
+            'Oracle 1: seams record the effective arguments of every get_next_imf / interp_envelope / get_padded_extrema '
+            'call in the parent and in every worker; oracle 2: output equals a pipeline assembled from the stage functions.',
+            'Seams interpose on emd.sift module globals at run time; oracle 2 does not depend on them.',
+            'DESIGN.md section 3 / C06'),
+    'C07': ('I+S', 'executable specification + exhaustive chunk-to-worker schedule exploration',
+            'mask_sift against an executable specification of the masking rule over a 2592-point configuration grid '
+            '(rotating sub-grids per signal), get_next_imf_mask over frequency x amplitude x nphases, and every schedule of '
+            'nphases x nprocesses (quick <= 5 x 3, thorough <= 8 x 8, plus two-pool products) under the controlled fork '
+            'pool: every schedule must reproduce the serial result bit-for-bit with the same multiset of task inputs.',
+            'Specification uses emd.sift.get_next_imf as stage function; CPython chunking rule assumed and checked against the real pool.',
+            'DESIGN.md section 3 / C07'),
+    'C08': ('S', 'exhaustive chunk-to-worker schedule exploration on the real code, real-pool conformance',
+            'ensemble_sift and complete_ensemble_sift under a controlled fork pool installed at emd.sift.mp: every canonical '
+            'assignment of task chunks to workers for E x P (quick E<=6, P<=4; thorough 8 x 8), both noise modes, three noise '
+            'levels; the array actually handed to each member sift is traced in the worker, members must be pairwise '
+            'different and the output must be the per-IMF mean recomputed in the parent. Stock multiprocessing.Pool runs are '
+            'validated as members of the enumerated space with equal observations.',
+            'Models chunk placement only (the only freedom of Pool.starmap); not worker death or spawn start method.',
+            'DESIGN.md section 2.4, 3 / C08'),
+    'C09': ('I', 'bounded-exhaustive grid enumeration (structural, accuracy, round trip)',
+            'Structural laws (shape, phase range, IF = derivative of phase, scale laws, amplitude normalisation) over methods x '
+            'multi-column signals x sample rates x scales; recovery of pure sinusoids over a cycles x amplitude x phase x '
+            'sample-rate grid (1e-9 for integer cycle counts with hilbert); exact phase<->frequency round trip for every '
+            '3-level profile up to length 7/9.',
+            'The accuracy clause is over a continuum: decided on the grid only; tolerances documented in the evidence assumptions.',
+            'DESIGN.md section 3 / C09'),
+    'C15': ('H', 'explicit-state BFS over operation histories on real objects vs. reference model',
+            'Five containers, each built with the slice cache on and off and driven in lock-step, explored breadth-first over 24 '
+            'state-changing operations with canonical-state deduplication (full alphabet to depth 3/5, a 10-operation '
+            'sub-alphabet to depth 5/12); after every transition all stored metrics, subset / chain vectors, 10 '
+            'get_matching_cycles queries and three table exports are compared with a dict-of-lists model and between cache modes.',
+            'Subset selections only when their metrics exist; augmented-mode values judged where both readings of the rule coincide.',
+            'DESIGN.md section 3 / C15'),
+    'C18': ('H+I', 'explicit-state BFS over edit histories vs. native nested indexing; YAML round trips per state',
+            'Defaults of four variants through three routes; BFS over set/del histories on 10 key paths x 7 values (depth 2/3 '
+            'full alphabet, depth 3/4 reduced) from every variant default config: mapping interface and every key path '
+            'compared with a plain nested dict, both YAML routes round-tripped on every state, reloaded callable compared '
+            'with the direct call for valid-valued states.',
+            'Tuples/arrays compared as lists, as the property allows.',
+            'DESIGN.md section 3 / C18'),
+    'C19': ('I', 'exhaustive enumeration of entry points x layouts x mutability',
+            '24 entry points x accepted layouts (writable and read-only, each called twice) x rejected layouts x length '
+            'mismatches x signals: equal results across layouts, rejection within a watchdog, byte-identical inputs, '
+            'deep-equal option dictionaries, repeatability.',
+            'Accepted/rejected layout sets as listed in the property text.',
+            'DESIGN.md section 3 / C19'),
+    'C20': ('H', 'exhaustive process-tree exploration of operation histories vs. reference model',
+            'Every sequence of up to 3 (quick) / 4 (thorough) operations over a 20-operation alphabet (set_up variants incl. a '
+            'log file, set_level, disable, enable, returning and raising sift-variant calls with every verbosity) from both the '
+            'never-set-up and the set-up root; every node is a freshly forked process inheriting genuine logging state; console '
+            'level, disabled flag, results and exception classes compared with the model after every operation.',
+            'Pools replaced by the serial pool; no state merging.',
+            'DESIGN.md section 3 / C20'),
 }
 
 NOT_YET = 'check not built yet in this round (planned, see DESIGN.md section 3)'
@@ -99,6 +155,8 @@ ENGINES = [
      'breadth-first exploration of operation histories on fresh real objects/processes vs. a reference model'},
     {'name': 'S', 'path': 'mc/engine/forkpool.py', 'kind_free_text':
      'controlled fork pool installed at emd.sift.mp; enumerates every chunk-to-worker assignment'},
+    {'name': 'I+S', 'path': 'mc/engine/explore.py + mc/engine/forkpool.py', 'kind_free_text': 'explorer I cases that each execute one schedule of explorer S'},
+    {'name': 'H+I', 'path': 'mc/engine/history.py + mc/engine/explore.py', 'kind_free_text': 'history BFS plus a small input grid'},
 ]
 
 
